@@ -149,10 +149,7 @@ def gen_poly(rng, names, must=None, maxdeg=3):
         if tuple(facs) in seen:
             continue
         seen.add(tuple(facs))
-        c = q4(rng, nz=True)
-        if abs(Fr(c)) in {abs(Fr(m[0])) for m in monos}:
-            continue
-        monos.append([c, facs])
+        monos.append([q4(rng, nz=True), facs])
     rng.shuffle(monos)
     return monos
 
@@ -276,8 +273,8 @@ def add_edge(c, s, t, w, rng):
 def gen_case(rng, mode="valid"):
     """mode: valid (satisfies the guards) | d3 (two variables of one source node into one target variable)
              | d22 (names of the generated in_edge operator clash, e.g. source and target variable have the same name)
-             | lab (an operator that owns both a variable `a` and a variable a_v<k>)"""
-    for _ in range(200):
+             | lab (an input `a` with >= 2 sources in an operator that owns a variable a_v<k>)"""
+    for _ in range(20000 if mode == "lab" else 200):
         n_ops = rng.randint(1, 4)
         ops = gen_ops(rng, n_ops, small=(mode in ("lab", "d22")))
         depth = rng.choice([0, 0, 1, 1, 2])
@@ -338,8 +335,6 @@ def gen_case(rng, mode="valid"):
         if mode == "d22" and py_guard_names(case):
             continue
         if (mode == "lab") == py_guard_labels(case):
-            continue
-        if not py_guard_parser(case):
             continue
         if (mode == "d3") == py_guard_d3(case):
             continue
@@ -420,22 +415,17 @@ def py_guard_names(case):
     return True
 
 def py_guard_labels(case):
-    """mirror of Edges.guard_labels"""
+    """mirror of Edges.guard_labels: an input with >= 2 operator-level sources in an operator that owns a_v<k>"""
+    targets = {split_vid(t) for s_, t, w in tree_edges(case["tree"])}
     for path, nops in tree_nodes(case["tree"]):
+        outs = [case["ops"][on]["out"] for on, _ in nops]
         for on, _ in nops:
-            vs = [v for v, _, _ in case["ops"][on]["vars"]]
-            if any(is_vk_of(a, b) for a in vs for b in vs):
-                return False
-    return True
-
-def py_guard_parser(case):
-    """mirror of Edges.guard_parser: no input variable with degree >= 3 in a monomial"""
-    for on, o in case["ops"].items():
-        ins = [v for v, k, _ in o["vars"] if k == "input"]
-        for lhs, de, p in o["eqs"]:
-            for c, facs in p:
-                if any(facs.count(a) >= 3 for a in ins):
-                    return False
+            vs = case["ops"][on]["vars"]
+            for v, kind, _ in vs:
+                if kind == "input":
+                    k = outs.count(v) + (1 if (path, on, v) in targets else 0)
+                    if k >= 2 and any(is_vk_of(v, v2) for v2, _, _ in vs):
+                        return False
     return True
 
 def py_guard_d3(case):
@@ -640,7 +630,7 @@ def model_compare(ctx, cases, outs, tag):
     """Evaluates Spec, Impl and the guards inside Coq.  Returns dict of index lists:
        badS / badI: observed real-code values differ from Spec / Impl (only cases that produced values);
        nwf: not well-formed; g_d3 / g_names / g_labels: guard false."""
-    res = dict(badS=[], badI=[], nwf=[], g_d3=[], g_names=[], g_labels=[], g_parser=[])
+    res = dict(badS=[], badI=[], nwf=[], g_d3=[], g_names=[], g_labels=[])
     shard = 25
     for s in range(0, len(cases), shard):
         body, observed = [], []
@@ -654,14 +644,13 @@ def model_compare(ctx, cases, outs, tag):
                  "Eval vm_compute in (mismatches (fun o => wf (net_of o)) cases).",
                  "Eval vm_compute in (mismatches (fun o => guard_d3 (net_of o)) cases).",
                  "Eval vm_compute in (mismatches (fun o => guard_names (net_of o)) cases).",
-                 "Eval vm_compute in (mismatches (fun o => guard_labels (net_of o)) cases).",
-                 "Eval vm_compute in (mismatches (fun o => guard_parser (net_of o)) cases)."]
+                 "Eval vm_compute in (mismatches (fun o => guard_labels (net_of o)) cases)."]
         o = coq_eval(ctx, f"c01_{tag}_{s}", HEADER, "\n".join(body))
         ls = parse_nat_lists(o)
-        assert len(ls) == 7, o[:600]
+        assert len(ls) == 6, o[:600]
         obs_idx = [s + i for i in range(k) if observed[i]]
         res["badS"] += [obs_idx[i] for i in ls[0]]; res["badI"] += [obs_idx[i] for i in ls[1]]
-        for name, l in zip(("nwf", "g_d3", "g_names", "g_labels", "g_parser"), ls[2:]):
+        for name, l in zip(("nwf", "g_d3", "g_names", "g_labels"), ls[2:]):
             res[name] += [s + i for i in l]
     return res
 
@@ -672,26 +661,24 @@ def model_outputs(ctx, case, out, tag):
     for j, pt in enumerate(case["points"][:2]):
         env = f"(assoc_env {c_assoc(pt['state'])} zero_env) (assoc_env {c_assoc(pt['params'])} (declared_env {n}))"
         body.append(f"Eval vm_compute in (map (fun v => (v, deriv {n} {env} v, deriv_impl {n} {env} v)) (state_vars {n})).")
-    body.append(f"Eval vm_compute in (wf {n}, guard_d3 {n}, guard_names {n}, guard_labels {n}, guard_parser {n}).")
+    body.append(f"Eval vm_compute in (wf {n}, guard_d3 {n}, guard_names {n}, guard_labels {n}).")
     try:
         return coq_eval(ctx, f"c01_show_{tag}", HEADER, "\n".join(body))[:8000]
     except Exception as e:
         return f"(model evaluation failed: {e})"
 
 # ---------------------------------------------------------------------------------------------- verdict helpers
-GUARDS = {"g_names": "guard_names", "g_labels": "guard_labels", "g_parser": "guard_parser"}
+GUARDS = {"g_names": "guard_names", "g_labels": "guard_labels"}
 PROPOSED = {   # findings this check proposes for known_findings.json (used for attribution only while not yet listed there)
     "guard_names": dict(id="C01-D22", witness="corpus/C01/d22_witness.json",
                         text="a name generated for the in_edge operator (source variable, target variable, `weight`, `<v>_in<i>`, "
                              "`weight_in<i>`) coincides with another one, e.g. source and target variable have the same name or a variable "
                              "is called `weight`: NameError / UnboundLocalError at the first call, or a silently wrong value"),
     "guard_labels": dict(id="C01-D22b", witness="corpus/C01/labels_witness.json",
-                         text="an operator owns both a variable `a` and a variable named like a generated label `a_v<k>`: label and user "
-                              "variable are taken for one another in replace_in_expr (silently wrong value, a state variable missing from the "
-                              "layout, or NameError)"),
-    "guard_parser": dict(id="C01-P1", witness="corpus/C01/parser_witness.json",
-                         text="an input variable with >= 2 sources (sum-substituted by _collect_ops) occurs with degree >= 3 in a right-hand "
-                              "side: AttributeError ('Add' object has no attribute 'shape') at compile time (expression parser, loud)"),
+                         text="an operator input `a` with >= 2 sources (same-node producer(s) and/or the in_edge operator) in an operator that "
+                              "also owns a variable named like a generated label `a_v<k>`: _collect_ops rewrites `a` textually to (a_v1+a_v2), "
+                              "label and user variable become one identifier (silently wrong value and a state variable missing from the "
+                              "layout, or NameError).  Narrowed after fix D80: inputs with < 2 sources are no longer affected"),
 }
 
 def fixed_D3():
@@ -822,8 +809,7 @@ def check(ctx):
     if fixed_D3():
         ctx.note("model switch fixed_D3 = true: Impl merges by (source node, source variable); the d3 stream is an ordinary valid stream")
     ctx.note(f"E1: {len(cases)} networks, {n_eval} vector-field evaluations; real-vs-Impl mismatches {len(badI)}, real-vs-Spec mismatches "
-             f"{len(badS)}, raised/crashed {len(crashed)}; outside guards: d3 {len(cmp_['g_d3'])}, names {len(cmp_['g_names'])}, labels {len(cmp_['g_labels'])}, "
-             f"parser {len(cmp_['g_parser'])}")
+             f"{len(badS)}, raised/crashed {len(crashed)}; outside guards: d3 {len(cmp_['g_d3'])}, names {len(cmp_['g_names'])}, labels {len(cmp_['g_labels'])}")
     # failures of inputs outside a guard whose finding is proposed but not yet listed in known_findings.json are attributed here
     listed = {f.get("guard") for f in known_findings("C01")}
     pending = {}
@@ -882,7 +868,7 @@ def check(ctx):
                                  "values need more than 44 bits; results are compared as exact rationals)",
                                  "sympy parsing/printing and the generated Python source are outside the model; they are exercised by every case"],
                    assumptions=["guards of C01_full: guard_names, guard_labels (no clash between generated names/labels and user names), "
-                                "guard_parser — classified by the Coq booleans; the d3 stream (two variables of one source node into one "
+                                "classified by the Coq booleans; the d3 stream (two variables of one source node into one "
                                 "target variable) is a regression stream since fix D59",
                                 "models without any differential equation, cyclic operator graphs and algebraic loops are not well-formed (Net.wf)",
                                 "IEEE rounding is outside the model: the model computes in Qc"])
